@@ -286,6 +286,39 @@ var Positions = []Position{
 	{"function call with arguments", "function", false, func(p *Prog, n string) { p.W("$r = "); p.Ref(n, "function"); p.W("(1, $a);") }},
 	{"constant fetch", "const", false, func(p *Prog, n string) { p.W("echo "); p.Ref(n, "const"); p.W(";") }},
 	{"constant fetch in expression", "const", false, func(p *Prog, n string) { p.W("$r = 1 + "); p.Ref(n, "const"); p.W(";") }},
+	// constant expressions of declarations (the PHP 5 grammar has a grammar of its own for them: static_scalar)
+	{"constant in the value of a const declaration", "const", false, func(p *Prog, n string) {
+		p.W("const ")
+		p.Exp = append(p.Exp, Expect{p.B.Len(), p.Sc.Qualify("K1"), false, "decl const"})
+		p.W("K1 = ")
+		p.Ref(n, "const")
+		p.W(";")
+	}},
+	{"constant in the value of a class constant", "const", false, func(p *Prog, n string) {
+		p.Decl("class", "C1", " { const K = ")
+		p.Ref(n, "const")
+		p.W("; }")
+	}},
+	{"constant in a property default inside array()", "const", false, func(p *Prog, n string) {
+		p.Decl("class", "C1", " { public $p = array(1 => ")
+		p.Ref(n, "const")
+		p.W(", 2); }")
+	}},
+	{"constant in a static variable initialiser", "const", false, func(p *Prog, n string) {
+		p.Decl("function", "f1", "() { static $s = ")
+		p.Ref(n, "const")
+		p.W(" | 1; }")
+	}},
+	{"constant in a parameter default", "const", false, func(p *Prog, n string) {
+		p.Decl("function", "f1", "($p = ")
+		p.Ref(n, "const")
+		p.W(") {}")
+	}},
+	{"class constant of a name in a constant expression", "class", false, func(p *Prog, n string) {
+		p.Decl("class", "C1", " { const K = ")
+		p.Ref(n, "class")
+		p.W("::X; }")
+	}},
 	{"nested: call inside method of class", "function", false, func(p *Prog, n string) {
 		p.Decl("class", "C1", " { function m() { return ")
 		p.Ref(n, "function")
